@@ -24,6 +24,8 @@ VintSwitches == {2 ^ 7, 2 ^ 14, 2 ^ 21}
 \* fields were interleaved.  Grouping the (field, value) pairs by field must be stable; Rust's unstable sort is
 \* stable in effect for short inputs (here up to 32 pairs): documents around and above that are generated.
 ManyValuesSmallSort == 32
+\* A stored OBJECT value is the sequence of its entries <<key, value>>: keys keep the order in which they were given,
+\* also when it is not ascending, and a key given twice is stored twice.
 
 -----------------------------------------------------------------------------
 (* Block cut rule (StoreWriter::check_flush_block): after a document was appended, the block  *)
